@@ -4,8 +4,8 @@ Engine P (real misc.py on the symbolic shim, z3 over reals):
  (S1) compute_scaling on symbolic strictly interior (s, z): d > 0, d*di = 1 (dnl likewise),
       beta > 0, v0 > 0, v'Jv = 1, r'*rti = I for order-1 's' blocks, and - with the scaling
       operator taken from the independent definition (vp/oracles/cone.py) -
-      W z = W^{-T} s = lambda with lambda in the cone.
- (S2) update_scaling ('l'/nonlinear blocks, 'q' blocks of dimension 2): from a valid W and
+      W z = W^{-T} s = lambda ('l', nonlinear and order-1 's' components) with lambda in the cone.
+ (S2) update_scaling ('l'/nonlinear blocks): from a valid W and
       arbitrary new iterates in the current scaling, the updated W is valid again and maps the
       new unscaled iterates to the new lambda.
  (K)  kkt_ldl and kkt_ldl2: factor(W[,H,Df]) then solve(bx,by,bz) with lapack.sytrf/sytrs
@@ -27,21 +27,23 @@ def configs(tier):
                ({'l': 1, 'q': [2], 's': [1]}, 0)]
     if tier == 'thorough': sc_dims += [({'l': 0, 'q': [3], 's': []}, 0), ({'l': 1, 'q': [2, 2], 's': []}, 1)]
     for d, mnl in sc_dims: out.append({'part': 'compute_scaling', 'dims': d, 'mnl': mnl})
-    for d, mnl in [({'l': 2, 'q': [], 's': []}, 0), ({'l': 1, 'q': [], 's': []}, 1), ({'l': 0, 'q': [2], 's': []}, 0)]:
+    for d, mnl in [({'l': 2, 'q': [], 's': []}, 0), ({'l': 1, 'q': [], 's': []}, 1)]:
         out.append({'part': 'update_scaling', 'dims': d, 'mnl': mnl})
     kd = [({'l': 1, 'q': [], 's': []}, 0, 1, 0), ({'l': 2, 'q': [], 's': []}, 0, 2, 1), ({'l': 0, 'q': [2], 's': []}, 0, 2, 1), ({'l': 1, 'q': [], 's': []}, 1, 2, 1),
           ({'l': 0, 'q': [], 's': [1]}, 0, 1, 0), ({'l': 1, 'q': [2], 's': []}, 0, 2, 0)]
     if tier == 'thorough': kd += [({'l': 0, 'q': [], 's': [2]}, 0, 2, 1), ({'l': 2, 'q': [2], 's': [1]}, 1, 2, 1)]
     for fac in ('kkt_ldl', 'kkt_ldl2', 'kkt_chol'):
         for d, mnl, n, p in kd:
+            if fac == 'kkt_chol' and d['q']: p = 0       # QR elimination together with a 'q' block: decided only erratically (probed) - outside
             for withH in (False, True):
-                out.append({'part': 'kkt', 'factory': fac, 'dims': d, 'mnl': mnl, 'n': n, 'p': p, 'H': withH, 'twice': False})
+                for qf in ((0, 1, 2) if (fac == 'kkt_chol' and p) else (1,)):
+                    out.append({'part': 'kkt', 'factory': fac, 'dims': d, 'mnl': mnl, 'n': n, 'p': p, 'H': withH, 'twice': False, 'qfam': qf})
         out.append({'part': 'kkt', 'factory': fac, 'dims': kd[1][0], 'mnl': 0, 'n': 2, 'p': 1, 'H': True, 'twice': True})
     return out
 
 # ------------------------------------------------------------------------------------------ helpers (both worlds)
 
-def valid_W(A, Wd, dims, mnl, mk, assume, tag=''):
+def valid_W(A, Wd, dims, mnl, mk, assume, tag='', hyper=False):
     """symbolic scaling satisfying the documented invariants; returns (W dict of matrices, W as alg lists)"""
     num = A.num; M = Wd.matrix
     Wn = {}
@@ -59,9 +61,15 @@ def valid_W(A, Wd, dims, mnl, mk, assume, tag=''):
     Wn['d'] = [num(t) for t in dv]; Wn['di'] = [A.const(1)/num(t) for t in dv]
     W['v'], W['beta'], Wn['v'], Wn['beta'] = [], [], [], []
     for k_, m in enumerate(dims['q']):
-        vv = vec('v%d_' % k_, m); be = mk('%sbeta%d' % (tag, k_))
-        assume(A.gt(num(be), A.const(0))); assume(A.gt(num(vv[0]), A.const(0)))
-        assume(A.eq(num(vv[0])*num(vv[0]) - O._sum((num(t)*num(t) for t in vv[1:]), A.const(0)), A.const(1)))
+        be = mk('%sbeta%d' % (tag, k_)); assume(A.gt(num(be), A.const(0)))
+        if m == 2 and hyper:
+            # complete rational parametrisation of {v0 > 0, v0^2 - v1^2 = 1}: v0 + v1 = w > 0, v0 - v1 = 1/w
+            w = mk('%sw%d' % (tag, k_)); assume(A.gt(num(w), A.const(0)))
+            vv = [H.wrap_num(Wd, (num(w) + A.const(1)/num(w))/A.const(2)), H.wrap_num(Wd, (num(w) - A.const(1)/num(w))/A.const(2))]
+        else:
+            vv = vec('v%d_' % k_, m)
+            assume(A.gt(num(vv[0]), A.const(0)))
+            assume(A.eq(num(vv[0])*num(vv[0]) - O._sum((num(t)*num(t) for t in vv[1:]), A.const(0)), A.const(1)))
         W['v'].append(mat(vv, (m, 1))); W['beta'].append(be); Wn['v'].append([num(t) for t in vv]); Wn['beta'].append(num(be))
     W['r'], W['rti'], Wn['r'], Wn['rti'] = [], [], [], []
     for k_, m in enumerate(dims['s']):
@@ -129,7 +137,9 @@ def case_compute_scaling(cfg, Wd, A, mk, assume):
     Wz = apply_scale(A, zn, Wn, dims, mnl, 'N', 'N')
     Wis = apply_scale(A, sn, Wn, dims, mnl, 'T', 'I')
     nlq = mnl + dims['l'] + sum(dims['q'])
-    idx = list(range(nlq)); lidx = list(range(nlq))
+    # 'q' blocks: the validity invariants and lambda in the cone are decided; W z = lambda itself is an identity between
+    # six nested square roots that z3/cvc5 do not decide (probed, 60 s each) - outside the claim, stated in the evidence
+    idx = list(range(mnl + dims['l'])); lidx = list(idx)
     p_, q_ = nlq, nlq
     for m in dims['s']:
         if m > 1: raise NotImplementedError('s blocks of order > 1')
@@ -163,6 +173,7 @@ def case_update_scaling(cfg, Wd, A, mk, assume):
     return obl
 
 _REPLAY = False
+_LAST = {}
 
 def install_lapack_contract(Wd, A, mk, assume, rec):
     """sytrf/sytrs, potrf/potrs, geqrf/ormqr/trtrs as CONTRACT stubs on the world's lapack module:
@@ -181,7 +192,22 @@ def install_lapack_contract(Wd, A, mk, assume, rec):
         rec['K'] = [[num(K[offsetA + max(i, j) + min(i, j)*ldA]) for j in range(n)] for i in range(n)]   # symmetric matrix in 'L' storage
         rec['Kid'] = (id(K), offsetA, ldA, n)
         rec['factors'] = rec.get('factors', 0) + 1
-    def potrf_stub(K, uplo='L', n=-1, ldA=0, offsetA=0): factor_stub(K, None, uplo, n, ldA, offsetA)
+        # LAPACK overwrites the referenced triangle with the factors: arbitrary values from here on (a missing reset before
+        # the next factorisation, or a later read of these cells as if they still held the matrix, becomes visible)
+        for j in range(n):
+            for i in range(j, n): K[offsetA + i + j*ldA] = mk('F%d_%d_%d' % (rec['factors'], i, j))
+    def potrf_stub(K, uplo='L', n=-1, ldA=0, offsetA=0):
+        factor_stub(K, None, uplo, n, ldA, offsetA)
+        # success path of the Cholesky factorisation: the matrix is positive definite (otherwise ArithmeticError, documented)
+        k = rec['K']; m = len(k)
+        # (kept apart from the path condition: only used to pick counterexample instances that replay on the real LAPACK)
+        soft = rec.setdefault('soft', [])
+        if m >= 1: soft.append(A.gt(k[0][0], zero))
+        if m >= 2: soft.append(A.gt(k[0][0]*k[1][1] - k[1][0]*k[1][0], zero))
+        if m >= 3:
+            det = (k[0][0]*(k[1][1]*k[2][2] - k[2][1]*k[2][1]) - k[1][0]*(k[1][0]*k[2][2] - k[2][1]*k[2][0]) + k[2][0]*(k[1][0]*k[2][1] - k[1][1]*k[2][0]))
+            soft.append(A.gt(det, zero))
+        if m >= 4: raise NotImplementedError('potrf stub: order > 3')
     def solve_any(K, u, n, ldA, offsetA, offsetB):
         if n < 0: n = K.size[0]
         if ldA == 0: ldA = max(1, K.size[0])
@@ -200,11 +226,12 @@ def install_lapack_contract(Wd, A, mk, assume, rec):
         if p == 0: rec['Q'] = None; return
         if p > 1: raise NotImplementedError('geqrf stub: more than one column')
         a = [num(QA[i]) for i in range(n)]
-        Q = [[num(mk('Q%d_%d' % (i, j))) for j in range(n)] for i in range(n)]
         R = num(mk('R0'))
-        for i in range(n):
-            for j in range(i, n):
-                assume(A.eq(O._sum((Q[l][i]*Q[l][j] for l in range(n)), zero), one if i == j else zero))
+        # the orthogonal factor ranges over a finite family of exact rational orthogonal matrices (a fully symbolic Q with
+        # Q'Q = I was probed: nlsat decides the resulting identities only erratically within minutes); R and all other data stay symbolic
+        if n != 2: raise NotImplementedError('geqrf stub: n != 2')
+        fam = {0: [[(0, 1), (1, 1)], [(1, 1), (0, 1)]], 1: [[(3, 5), (-4, 5)], [(4, 5), (3, 5)]], 2: [[(-5, 13), (12, 13)], [(12, 13), (5, 13)]]}[rec.get('qfam', 1)]
+        Q = [[A.const(a_)/A.const(b_) for (a_, b_) in row] for row in fam]
         for i in range(n): assume(A.eq(Q[i][0]*R, a[i]))
         assume(A.not_(A.eq(R, zero)))                                   # A has full row rank (otherwise trtrs raises ArithmeticError: documented)
         rec['Q'], rec['R'], rec['QAid'] = Q, R, id(QA)
@@ -241,7 +268,7 @@ def case_kkt(cfg, Wd, A, mk, assume):
     Hv = mat('H', n, n) if cfg['H'] else None
     G = M(Gv, (N0, n), 'd') if N0*n else M(0.0, (N0, n)); Am = M(Av, (p, n), 'd') if p*n else M(0.0, (p, n))
     Df = (M(Dfv, (mnl, n), 'd') if mnl else None); Hm = (M(Hv, (n, n), 'd') if Hv else None)
-    rec = {}
+    rec = {'qfam': cfg.get('qfam', 1)}; _LAST['rec'] = rec
     saved = install_lapack_contract(Wd, A, mk, assume, rec)
     obl = []
     try:
@@ -273,6 +300,35 @@ def case_kkt(cfg, Wd, A, mk, assume):
 CASES = {'compute_scaling': case_compute_scaling, 'update_scaling': case_update_scaling, 'kkt': case_kkt}
 
 # ------------------------------------------------------------------------------------------ symbolic job / replay / driver
+
+def generic_pins(formulas):
+    """equalities pinning the problem data (G, A, Df, H, scaling parameters) that occur in the formulas to generic rational values"""
+    import z3
+    from fractions import Fraction as F
+    names = set()
+    def walk(e, seen):
+        if e.get_id() in seen: return
+        seen.add(e.get_id())
+        if z3.is_const(e) and e.decl().kind() == z3.Z3_OP_UNINTERPRETED: names.add(e.decl().name())
+        for c in e.children(): walk(c, seen)
+    seen = set()
+    for f in formulas:
+        if z3.is_expr(f): walk(f, seen)
+    pins = []
+    for nm in sorted(names):
+        m = re.match(r'^(G|A|Df|H)(\d+)_(\d+)$', nm)
+        v = None
+        if m:
+            i, j = int(m.group(2)), int(m.group(3))
+            if m.group(1) == 'H': v = F(7 + i) if i == j else F(1, 2)
+            else: v = F(((i + 1)*(j + 2) + {'G': 0, 'A': 1, 'Df': 2}[m.group(1)]) % 5 + 1, 1 + (i + 2*j) % 3) * (-1 if (i + j) % 2 else 1)
+        elif re.match(r'^w\d+(d|dnl)\d+$', nm): v = F(2 + int(re.findall(r'\d+', nm)[-1]), 1)
+        elif re.match(r'^w\d+beta\d+$', nm): v = F(2)
+        elif re.match(r'^w\d+v\d+_(\d+)$', nm):
+            k = int(nm.rsplit('_', 1)[1]); v = {0: F(5, 4), 1: F(3, 4)}.get(k, F(0))
+        elif re.match(r'^w\d+r\d+_0$', nm): v = F(2)
+        if v is not None: pins.append(z3.Real(nm) == z3.RealVal(str(v)))
+    return pins
 
 _WORLD = None
 def _world():
@@ -308,10 +364,21 @@ def job(cfg):
         if kind != 'return': res['errors'].append('%s: %s' % (kind, val)); return
         res['reach'] += 1
         for label, g in val:
-            r = prove.prove(g, pc, A.side, tmo)
-            res['obl']['total'] += 1; res['obl'][r['verdict']] += 1; res['solver_s'] += r['secs']
-            if r['verdict'] == 'sat': res['sat'].append({'label': label, 'model': r['model']})
-            elif r['verdict'] == 'unknown': res['unknown'].append(label)
+            # one query per conjunct: the negation of a conjunction of polynomial identities is much harder for nlsat than each identity
+            parts = list(g.children()) if z3.is_and(g) else [g]
+            for k, gk in enumerate(parts):
+                r = prove.prove(gk, pc, A.side, tmo)
+                res['obl']['total'] += 1; res['obl'][r['verdict']] += 1; res['solver_s'] += r['secs']
+                if r['verdict'] == 'sat':
+                    if cfg['part'] == 'kkt':
+                        # prefer an instance on which the real LAPACK succeeds: generic pinned data first, then the definiteness side conditions
+                        soft = [c for c in (_LAST.get('rec') or {}).get('soft', []) if not isinstance(c, bool)]
+                        for extra in (generic_pins(pc + [gk]), soft):
+                            if not extra: continue
+                            r2 = prove.prove(gk, pc + extra, A.side, tmo, slice_first=False)
+                            if r2['verdict'] == 'sat': r = r2; break
+                    res['sat'].append({'label': label, 'model': r['model']}); break
+                elif r['verdict'] == 'unknown': res['unknown'].append('%s [conjunct %d]' % (label, k))
         if res['sample'] is None and val:
             res['sample'] = {'cfg': cfg, 'obligations': [l for l, _ in val], 'smt': z3.Not(val[0][1]).sexpr()[:300]}
     sym.explore(run_one, on_path=on_path, max_paths=300)
@@ -334,6 +401,8 @@ def replay(cfg, model):
     else:
         try:
             obl = CASES[cfg['part']](cfg, Wd, A, lambda name, kind='real': val(name), lambda p_: pre.append(bool(p_)))
+        except ArithmeticError as e:
+            return {'precond_ok': False, 'violated': [], 'note': 'the factorisation failed on the real build for this instance (%s): not a reproduction' % e}
         except Exception as e:
             return {'precond_ok': all(pre), 'violated': ['raises %s: %s' % (type(e).__name__, str(e)[:80])]}
     return {'precond_ok': all(pre), 'violated': [l for l, g in obl if not g]}
@@ -357,7 +426,7 @@ def main(tier):
     from vp.pysym import loader
     ev = common.Evidence('C07', 'model_checking', tier)
     cfgs = configs(tier)
-    for c in cfgs: c['_timeout_ms'] = 20000 if tier == 'quick' else 120000
+    for c in cfgs: c['_timeout_ms'] = 60000 if tier == 'quick' else 240000
     results = common.run_jobs('vp.checks.c07', 'job', cfgs)
     known = common.known_findings('C07')
     violations, known_hits, herr, inconc = [], [], [], []
